@@ -303,6 +303,33 @@ func (vn *VNet) afterSync(r *NNode, fromNum int, wire []hg.WireEvent, err error,
 	vn.steps++
 }
 
+// afterCrafted emits the Sync line of a node into which the driver inserted a
+// crafted self-event (adversarial block-signature payload).
+func (vn *VNet) afterCrafted(r *NNode, err error, b *syncBefore, kind string) {
+	w := vn.w
+	created, hashes := []string{}, []string{}
+	for _, inf := range r.collectNew() {
+		w.EmitCreate(inf)
+		r.markInserted(inf)
+		created = append(created, inf.ID)
+		hashes = append(hashes, inf.Hash)
+	}
+	o := r.Observe(hashes, b.roundsFrom, true)
+	o["err"] = err != nil
+	o["serr"] = false
+	o["state"] = r.State()
+	if err != nil {
+		o["errmsg"] = err.Error()
+	}
+	vn.blocks += len(o["blocks"].([]interface{}))
+	x := map[string]interface{}{"from": 0, "evs": []string{}, "ins": []string{}, "new": created, "crafted": kind}
+	if r.lost {
+		x["lost"] = r.lostWhy
+	}
+	w.Emit(r.num, "Sync", x, o)
+	vn.steps++
+}
+
 // Pull: a pulls from b (node.pull), emitting a's Sync line.
 func (vn *VNet) Pull(a, b *NNode, full bool) (map[uint32]int, error) {
 	before := a.beforeSync()
